@@ -62,6 +62,17 @@ def rerun(ctx, h):
     return bool(ctx.validate("Trace_Ports", [new], shards=1)), new
 
 
+def rerun_retry(ctx, h, tries=5):
+    """histories with concurrent senders / racing stops are schedule dependent: a rejection counts as reproduced if any of a
+    few re-executions of the same history on the real driver is rejected again"""
+    conc = any(s["fn"] in ("SendPar", "BurstStop") for s in h["steps"])
+    for _ in range(tries if conc else 1):
+        ok, new = rerun(ctx, h)
+        if ok:
+            return True
+    return False
+
+
 def run(ctx):
     q = ctx.quick
     ctx.cov["rule"] = ("testdrv: EVERY protocol-respecting call history of length 7 (quick) / 9 (thorough) over {OpenIn, CloseIn, OpenOut, CloseOut, Listen, Stop, Send}, "
@@ -96,7 +107,7 @@ def run(ctx):
     ctx.cov["exhaustive_testdrv_histories"] = {"length": res["depth"], "histories": res["paths"], "calls": res["steps"]}
     from props import mcat
     fails += mcat.run(ctx)
-    ctx.report(fails, lambda f: rerun(ctx, f.payload["history"])[0])
+    ctx.report(fails, lambda f: rerun_retry(ctx, f.payload["history"]))
 
 
 def replay(ctx, payload):
